@@ -404,6 +404,122 @@ fn run_seq(kind: Kind, limit: usize, track: bool, peak: bool, ops: &[Value]) {
     }
 }
 
+
+// ---------------------------------------------------------------------------------------
+// Concurrent, absolute-size operations: one thread resizes a shared reservation while the others grow
+// it. Every interleaving of the (delta-based) operations keeps the pool's total equal to the
+// reservation's size; an implementation that reads the size, talks to the pool and then *stores* the
+// new size loses the concurrent update.
+
+pub struct ResizeRace;
+
+impl Scenario for ResizeRace {
+    fn name(&self) -> &'static str {
+        "c17-resize"
+    }
+    fn weight(&self) -> u64 {
+        1
+    }
+    fn schedules_per_case(&self, tier: Tier) -> usize {
+        match tier {
+            Tier::Quick => 24,
+            Tier::Thorough => 60,
+        }
+    }
+    fn generate(&self, rng: &mut Rng, _tier: Tier) -> Value {
+        let (pool, limit, track, peak) = gen_pool(rng);
+        let n_growers = rng.range(1, 2);
+        let growers: Vec<Value> = (0..n_growers)
+            .map(|_| json!((0..rng.range(1, 3)).map(|_| json!({"op": *rng.pick(&["grow", "try_grow", "try_grow"]), "n": rng.range(1, limit / 4 + 1)})).collect::<Vec<_>>()))
+            .collect();
+        json!({
+            "pool": pool, "limit": limit, "track": track, "peak": peak,
+            "initial": rng.below(limit / 2 + 1),
+            "resize": {"op": *rng.pick(&["resize", "try_resize", "try_resize"]), "n": rng.below(limit + 1)},
+            "growers": growers,
+            "spill": rng.chance(1, 2),
+        })
+    }
+    fn body(&self, case: &Value) -> Option<Body> {
+        let (kind, limit, track, peak) = parse_kind(case)?;
+        let initial = (case.get("initial")?.as_u64()? as usize).min(limit);
+        let rs = case.get("resize")?;
+        let resize_op = rs.get("op")?.as_str()?.to_string();
+        if !["resize", "try_resize"].contains(&resize_op.as_str()) {
+            return None;
+        }
+        let resize_n = (rs.get("n")?.as_u64()? as usize).min(1 << 32);
+        let spill = case.get("spill")?.as_bool()?;
+        let mut growers: Vec<Vec<(String, usize)>> = vec![];
+        for g in case.get("growers")?.as_array()? {
+            let mut ops = vec![];
+            for o in g.as_array()? {
+                let op = o.get("op")?.as_str()?.to_string();
+                if !["grow", "try_grow"].contains(&op.as_str()) {
+                    return None;
+                }
+                ops.push((op, (o.get("n")?.as_u64()? as usize).min(1 << 32)));
+            }
+            if ops.len() > 6 {
+                return None;
+            }
+            growers.push(ops);
+        }
+        if growers.is_empty() || growers.len() > 3 {
+            return None;
+        }
+        Some(Box::new(move || {
+            let p = build(kind, limit, track, peak);
+            let res = Arc::new(MemoryConsumer::new("shared").with_can_spill(spill).register(&p.pool));
+            // (set up before the threads start; a refused initial size just leaves 0)
+            let _ = res.try_grow(initial);
+            let mut handles = vec![];
+            {
+                let r = Arc::clone(&res);
+                let op = resize_op.clone();
+                handles.push(shuttle::thread::spawn(move || {
+                    if op == "resize" {
+                        r.resize(resize_n);
+                    } else {
+                        let _ = r.try_resize(resize_n);
+                    }
+                }));
+            }
+            for ops in growers.clone() {
+                let r = Arc::clone(&res);
+                handles.push(shuttle::thread::spawn(move || {
+                    for (op, n) in ops {
+                        if op == "grow" {
+                            r.grow(n);
+                        } else {
+                            let _ = r.try_grow(n);
+                        }
+                    }
+                }));
+            }
+            for h in handles {
+                h.join().expect("pool thread");
+            }
+            probe("probe.resize_race_case");
+            let size = res.size();
+            if p.pool.reserved() != size {
+                violation("reserved-mismatch", format!("after a {resize_op}({resize_n}) raced with growth of the same reservation: pool.reserved()={} but the reservation's size()={size}", p.pool.reserved()));
+            }
+            if let Some(t) = &p.track {
+                match t.metrics().iter().find(|x| x.name == "shared") {
+                    None => violation("tracked-consumer-missing", "consumer missing from metrics()".into()),
+                    Some(e) if e.reserved != size => violation("tracked-reserved-mismatch", format!("tracked reserved={} but size()={size}", e.reserved)),
+                    _ => {}
+                }
+            }
+            drop(res);
+            if p.pool.reserved() != 0 {
+                violation("not-zero-after-drop", format!("pool.reserved()={} after the reservation was dropped", p.pool.reserved()));
+            }
+        }))
+    }
+}
+
 // ---------------------------------------------------------------------------------------
 // Concurrent: 2..3 threads sharing reservations
 
@@ -446,9 +562,9 @@ impl Scenario for Conc {
             let mut ops = vec![];
             for _ in 0..k {
                 let op = if fallible_only {
-                    *rng.pick(&["try_grow", "try_grow", "try_grow", "shrink_own", "try_shrink_own", "try_resize_up"])
+                    *rng.pick(&["try_grow", "try_grow", "try_grow", "shrink_own", "try_shrink_own"])
                 } else {
-                    *rng.pick(&["grow", "try_grow", "try_grow", "shrink_own", "try_shrink_own", "resize_up"])
+                    *rng.pick(&["grow", "try_grow", "try_grow", "shrink_own", "try_shrink_own"])
                 };
                 let n = match rng.below(4) {
                     0 => limit / 2 + 1,
@@ -697,10 +813,10 @@ pub fn check() -> Check {
     Check {
         property: "C17",
         level: "exploration",
-        scenarios: vec![Box::new(Seq), Box::new(Conc)],
+        scenarios: vec![Box::new(Seq), Box::new(Conc), Box::new(ResizeRace)],
         cases_quick: 100_000,
         cases_thorough: 2_000_000,
-        rule: "c17-seq: seeded sequential histories (<= 40 ops over <= 4 consumers: register/grow/try_grow/shrink/try_shrink/resize/try_resize/split/take/new_empty/free/drop/reset_peak, sizes from {0,1,small,L/3,L/2,L,L+1,random}) checked operation by operation against a reference model, for Unbounded/Greedy/Fair x TrackConsumers x PeakRecording. c17-conc: 2-3 shuttle threads sharing 1-3 Arc<MemoryReservation>s (own or shared consumers), each running <= 4 ops and shrinking only what it grew, plus an observer thread; scheduling points at every pool lock and in front of every atomic. distinct = distinct histories (seq) or (case, schedule) pairs (conc); non-trivial = every sequential history, and concurrent schedules with a real choice",
+        rule: "c17-seq: seeded sequential histories (<= 40 ops over <= 4 consumers: register/grow/try_grow/shrink/try_shrink/resize/try_resize/split/take/new_empty/free/drop/reset_peak, sizes from {0,1,small,L/3,L/2,L,L+1,random}) checked operation by operation against a reference model, for Unbounded/Greedy/Fair x TrackConsumers x PeakRecording. c17-conc: 2-3 shuttle threads sharing 1-3 Arc<MemoryReservation>s (own or shared consumers), each running <= 4 ops and shrinking only what it grew, plus an observer thread. c17-resize: one thread resizes / try_resizes a shared reservation to an absolute size while 1-2 others grow it; total and per-consumer metrics must equal the reservation's size afterwards. Scheduling points at every pool lock and in front of every atomic. distinct = distinct histories (seq) or (case, schedule) pairs (conc); non-trivial = every sequential history, and concurrent schedules with a real choice",
         assumptions: vec![
             "sizes stay below 2^32 (arithmetic overflow of usize counters is not explored)",
             "shuttle executes atomics sequentially consistently",
